@@ -81,3 +81,64 @@ package putsvc
 //@ func (*validatingTarget).Close
 //@   property C24
 //@   ensures [success_only_with_declared_size_and_checksum] err == nil && !t.unpreparedObject ==> t.payloadSz == t.writtenPayload && checksumMatched()
+
+// ---- C25: which nodes and which parts a storage rule is applied to, and what a nil result
+// of the rule handlers means.
+
+//@ ghost pred partScheduled(i int) bool
+
+// Every EC rule is applied to the payload parts encoded for that rule and to the node list
+// selected for that rule (lists are ordered: REP rules first, then EC rules).
+//@ callrule c25_ec_rule_gets_its_own_parts_and_nodes in (*distributedTarget).saveObject
+//@   property C25
+//@   callee (*put.distributedTarget).applyECRule
+//@   pureeffect
+//@   requires [parts_encoded_for_this_rule] a3 == t.encodedECParts[a2]
+//@   requires [node_list_selected_for_this_rule] a5 == objNodeLists[len(repRules) + a2]
+
+// Every REP rule is applied to its own node list; under the full policy the required and the
+// maximal number of copies are the rule's number.
+//@ callrule c25_rep_rule_gets_its_own_nodes in (*distributedTarget).saveObject
+//@   property C25
+//@   callee (put.placementIterator).handleREPRule
+//@   pureeffect
+//@   requires [node_list_selected_for_this_rule] a5 == objNodeLists[a2]
+//@   requires [full_policy_demands_the_rules_number] maxReplicas == 0 ==> a3 == repRules[a2] && a4 == repRules[a2]
+//@   requires [never_more_than_the_rules_number] a4 <= repRules[a2]
+
+//@ callrule c25_collaborators in (*distributedTarget).saveObject
+//@   property C25
+//@   callee (put.ContainerNodes).*, (object.Object).*, (*object.Object).*, (*netmap.InitialPlacementPolicy).*, (netmap.InitialPlacementPolicy).*, slices.*, put.localNodeInSet, put.newRepProgress, put.newMaxReplicasError, put.newCompletionError, (*put.distributedTarget).submitMetaCollection, (id.ID).*, (oid.Address).*
+//@   pureeffect
+
+// Waiting for the workers: they update the acknowledgement counters (stored), never the
+// position in the node list (processed).
+//@ callrule c25_workers_update_stored_counters in (placementIterator).handleREPRule
+//@   property C25
+//@   callee (*sync.WaitGroup).Wait
+//@   assigns nodeCounters.stored
+//@   ensures true
+
+//@ callrule c25_rep_collaborators in (placementIterator).handleREPRule
+//@   property C25
+//@   callee (put.NeoFSNetwork).IsLocalNodePublicKey, (netmap.NodeInfo).*, (*netmap.NodeInfo).*, slices.*
+//@   pureeffect
+
+// A nil answer of the REP handler means the minimum (or the maximum, if smaller) was reached.
+//@ func (placementIterator).handleREPRule
+//@   property C25
+//@   valid 0 <= listInd && listInd < len(prog.nodesCounters) && prog.nodesCounters[listInd].processed <= uint(len(nodeList))
+//@   loop 1 invariant listInd < len(prog.nodesCounters) && prog.nodesCounters[listInd].processed <= uint(len(nodeList))
+//@   loop 2 invariant listInd < len(prog.nodesCounters) && prog.nodesCounters[listInd].processed <= uint(len(nodeList))
+//@   loop 3 invariant listInd < len(prog.nodesCounters) && prog.nodesCounters[listInd].processed <= uint(len(nodeList))
+//@   ensures [nil_only_with_enough_acknowledgements] err == nil ==> res0 >= minReps || res0 >= maxReps
+
+// Every part of the rule is handed to the worker group (and the group's verdict is returned).
+//@ callrule c25_part_scheduled in (*distributedTarget).applyECRule
+//@   property C25
+//@   callee (*errgroup.Group).Go
+//@   pureeffect
+//@   defines partScheduled(partIdx)
+//@ func (*distributedTarget).applyECRule
+//@   property C25
+//@   loop 1 iteration [every_part_is_scheduled] partScheduled(partIdx)
